@@ -360,7 +360,7 @@ def highpass_filter(
         order,
         real=True,
     )
-    out = irfftn(weight * rfftn(img))
+    out = irfftn(weight * rfftn(img), s=img.shape)
     return out.real
 
 
